@@ -1,6 +1,6 @@
 CONSTANTS
-  NV = 4
-  MaxE = 5
+  NV = 3
+  MaxE = 4
   Lens = {1, 2}
   TermNs = {0, 1, 2, 3}
   Lean = FALSE
